@@ -37,7 +37,7 @@ ASSUMPTIONS = [
     "[EAM-ADP-Dipole]/[EAM-ADP-Quadrupole] entries are not 'pair, embedding and density entries' and stay in the "
     "hand-edited file",
 ]
-REQUIRED = {"fs:species_in_density_keys_only": 3, "mode:include": 40, "mode:exclude": 40, "kind:pair": 20, "kind:eam": 15, "kind:fs": 15, "kind:adp": 5,
+REQUIRED = {"hyphenated_label:named_by_filter": 2, "fs:species_in_density_keys_only": 3, "mode:include": 40, "mode:exclude": 40, "kind:pair": 20, "kind:eam": 15, "kind:fs": 15, "kind:adp": 5,
             "removes_and_keeps": 50, "views>=2": 40, "views_tabulated": 25, "unknown_label": 15, "empty_include": 5,
             "route:main": 25, "only_unknown_labels:include:command_line_glue": 2, "only_unknown_labels:exclude:command_line_glue": 2}
 
@@ -66,9 +66,35 @@ def _filter(draw, species, shape=None, mode=None):
     return {"mode": mode, "species": s}
 
 
+def _hyphenate(m, old, new):
+    """rename element `old` to the hyphenated label `new` (an ion or a phase: 'O2-', 'Zr-hcp').  Such a label is a
+    legal key of [EAM-Embed] / [EAM-Density] and a legal side of an 'A->B' key; it cannot stand in an 'A-B' key, so
+    the species takes part through its embedding and density functions only"""
+    m["elements"] = [new if e == old else e for e in m["elements"]]
+    m["embed"] = [[new if a == old else a, pd] for a, pd in m["embed"]]
+    if "density" in m:
+        m["density"] = [[new if a == old else a, pd] for a, pd in m["density"]]
+    else:
+        m["density_fs"] = [[new if a == old else a, new if b == old else b, pd] for a, b, pd in m["density_fs"]]
+    for kind in ("pair", "dipole", "quadrupole"):
+        if kind in m:
+            m[kind] = [e for e in m[kind] if old not in (e[0], e[1])]
+    sp = [[new if a == old else a, prop, v] for a, prop, v in m.get("species", [])]
+    have = set(prop for a, prop, v in sp if a == new)
+    if "atomic_number" not in have:
+        sp.append([new, "atomic_number", 8])
+    if "atomic_mass" not in have:
+        sp.append([new, "atomic_mass", 15.999])
+    m["species"] = sp
+    m["hyphenated"] = new
+    return m
+
+
 @st.composite
-def _case(draw, targets=None, shape=None, mode=None, density_only=False):
+def _case(draw, targets=None, shape=None, mode=None, density_only=False, hyphen=False):
     m = draw(gen.any_model(targets, 2, 4, depth=0))
+    if hyphen:
+        _hyphenate(m, draw(st.sampled_from(m["elements"])), draw(st.sampled_from(["O2-", "Zr-hcp", "Fe3-x"])))
     sp = m["species"] if m["kind"] == "pair" else m["elements"]
     if density_only:
         # a Finnis-Sinclair model in which one species is mentioned by 'A->B' density keys ONLY (no embedding
@@ -101,6 +127,9 @@ def strata(tier):
             out.append(("%s:%s:full" % (nm, mode), _case(tg, "full", mode), w))
             out.append(("%s:%s:only_unknown" % (nm, mode), _case(tg, "only_unknown", mode), w))
         out.append(("%s:empty_include" % nm, _case(tg, "empty", "include"), w))
+    eamfs = sorted(t for t, k in gen.EAM_TARGETS.items() if k in ("eam", "fs"))
+    for mode in ("include", "exclude"):
+        out.append(("eam:hyphenated_label:" + mode, _case(eamfs, "partial", mode, hyphen=True), 2.5))
     fs = sorted(t for t, k in gen.EAM_TARGETS.items() if k == "fs")
     for mode in ("include", "exclude"):
         out.append(("fs:density_only_species:" + mode, st.one_of(_case(fs, "partial", mode, True), _case(fs, "only_unknown", mode, True)), 4))
@@ -159,6 +188,8 @@ def check_case(case):
     m, flt = case["model"], case["filter"]
     kind, target = m["kind"], m["target"]
     cls = ["mode:" + flt["mode"], "kind:" + kind, "target:" + target, "route:" + case["route"]]
+    if m.get("hyphenated"):
+        cls.append("hyphenated_label:" + ("named_by_filter" if m["hyphenated"] in flt["species"] else "not_named"))
     if m.get("density_only_species") and m["density_only_species"] not in flt["species"]:
         cls.append("fs:species_in_density_keys_only")
     secs = anymodel.sections_of(m)
